@@ -41,7 +41,10 @@ CLAUSES = {
     "apparent longitude at the returned instant = 0/90/180/270 within 1e-5 deg, not the antipode; termination": "unproved (searched): VSOP numerics",
     "sunrise equation: cos w0 = (sin h0 - sin phi sin delta)/(cos phi cos delta) puts the altitude formula at h0 at hour angle +-w0":
         "proved [spec, trig identity: C14_sunrise_identity] (bridging to the generated rise_set: unproved, searched)",
-    "rise/set within 1 deg of -0.8333 - dip against VSOP Sun + sidereal time; rise < transit < set; ValueError beyond 66d33'": "unproved (searched)",
+    "rise/set within 1 deg of -0.8333 - dip against VSOP Sun + sidereal time; rise < transit < set; ValueError beyond 66d33'":
+        "unproved (searched); the 1 deg bound is refuted on the tree of 2026-10-01 near the ends of 1900-2100: witness "
+        "Epoch(2095,3,20).rise_set(Angle(-66.4), Angle(149.22583329129634), 2261.2834322062554) sunset 1.06 deg off "
+        "(keys sunrise-altitude / sunset-altitude; all witnesses have |year-2000| >= 75 and |latitude| >= 40: perihelion longitude frozen at J2000)",
     "times_rise_transit_set: altitude at rise/set within 0.005 deg, meridian at transit, None iff never crossing": "unproved (searched)",
 }
 
